@@ -51,6 +51,10 @@ type Conn struct {
 
 	// chunks limits how many bytes the following Reads return (segmentation experiments).
 	chunks []int
+	// free-running segmentation experiments: a Read that waits with nothing to read is "starved"
+	starved bool
+	// OnRead, when set, is told about every Read: start=true when the call begins, then the result
+	OnRead func(start bool, n int, err error)
 
 	srvOff  int
 	srvStop bool
@@ -104,7 +108,11 @@ func (c *Conn) take(p []byte) int {
 	return n
 }
 
-func (c *Conn) Read(p []byte) (int, error) {
+func (c *Conn) Read(p []byte) (n int, err error) {
+	if f := c.OnRead; f != nil {
+		f(true, 0, nil)
+		defer func() { f(false, n, err) }()
+	}
 	c.mu.Lock()
 	defer c.mu.Unlock()
 	c.touches++
@@ -126,10 +134,14 @@ func (c *Conn) Read(p []byte) (int, error) {
 				return c.take(p), nil
 			case c.eof:
 				return 0, io.EOF
-			case !c.rdl.IsZero() && !time.Now().Before(c.rdl):
+			case !c.rdl.IsZero() && (c.timeoutReq || !time.Now().Before(c.rdl)):
+				c.timeoutReq = false
 				return 0, timeoutErr("read")
 			}
+			c.starved = true
+			c.cond.Broadcast()
 			c.cond.Wait()
+			c.starved = false
 			continue
 		}
 		// gated: a Read that finds nothing parks, and stays parked until the scheduler resumes it
@@ -318,6 +330,48 @@ func (c *Conn) SetChunks(chunks []int) {
 	c.mu.Lock()
 	c.chunks = append([]int(nil), chunks...)
 	c.mu.Unlock()
+}
+
+// WaitStarved blocks until a Read that began after `calls` Read calls waits with nothing to read, or stop()
+// holds (Kick makes it look again). It reports whether a reader is starved.
+func (c *Conn) WaitStarved(calls int, stop func() bool) bool {
+	c.mu.Lock()
+	defer c.mu.Unlock()
+	for !(c.starved && c.readCalls > calls && len(c.rbuf) == 0) {
+		if stop() {
+			return false
+		}
+		c.cond.Wait()
+	}
+	return true
+}
+
+// Kick wakes everything that waits on the connection's state.
+func (c *Conn) Kick() {
+	// taking the lock orders this after a waiter's test of its stop condition: no lost wake-up
+	c.mu.Lock()
+	c.mu.Unlock() //nolint:staticcheck // empty critical section on purpose
+	c.cond.Broadcast()
+}
+
+// ReadCalls returns the number of Read calls so far.
+func (c *Conn) ReadCalls() int {
+	c.mu.Lock()
+	defer c.mu.Unlock()
+	return c.readCalls
+}
+
+// InjectReadTimeout makes the waiting Read fail with a time-out, provided the client armed a read deadline
+// (free-running mode); it reports whether it did.
+func (c *Conn) InjectReadTimeout() bool {
+	c.mu.Lock()
+	defer c.mu.Unlock()
+	if c.rdl.IsZero() || !c.starved {
+		return false
+	}
+	c.timeoutReq = true
+	c.cond.Broadcast()
+	return true
 }
 
 // ServerClose: after the delivered bytes are consumed, Read returns io.EOF.
